@@ -320,3 +320,63 @@ VARIANTS += [
  whole('loader-object-type-rewritten', 'flagged(entry/tsa-roots)', loader_object(late='\tl.storeType = TypeCA\n')),
  whole('loader-object-other-name', 'flagged(gate/safe-name)', loader_object(build='\tl := &storeLoader{fs: trustStore.trustStorefs, storeType: storeType, name: filepath.Base(namedStore)}\n')),
 ]
+
+# fourth pass: the decision "CA or self-signed" is taken by module predicates (bool helpers) instead of by two edges in the loop body;
+# `continue` instead of a nested if; the Lstat error chain as a switch; De Morgan on the directory mode test; the tsa test hoisted out of the loop
+VC_LOOP_OLD = ('\tfor _, cert := range certs {\n\t\tif !cert.IsCA {\n\t\t\tif err := cert.CheckSignature(cert.SignatureAlgorithm, cert.RawTBSCertificate, cert.Signature); err != nil {\n'
+               '\t\t\t\treturn fmt.Errorf(\n\t\t\t\t\t"certificate with subject %q is not a CA certificate or self-signed signing certificate",\n\t\t\t\t\tcert.Subject,\n\t\t\t\t)\n\t\t\t}\n\t\t}\n\t}\n\treturn nil\n}\n')
+VC_ERR = 'fmt.Errorf("certificate with subject %q is not a CA certificate or self-signed signing certificate", cert.Subject)'
+CHECKSIG = 'CheckSignature(%s.SignatureAlgorithm, %s.RawTBSCertificate, %s.Signature)'
+def self_signed(arg='c', cmp='== nil', name='isSelfSigned'):
+    return 'func ' + name + '(c *x509.Certificate) bool {\n\treturn ' + arg + '.' + CHECKSIG % (arg, arg, arg) + ' ' + cmp + '\n}\n'
+def vc(loop, helpers):
+    return dict(file=T, find=VC_LOOP_OLD, replace='\tfor _, cert := range certs {\n' + loop + '\t}\n\treturn nil\n}\n\n' + helpers)
+L_CONTINUE = '\t\tif cert.IsCA || isSelfSigned(cert) {\n\t\t\tcontinue\n\t\t}\n\t\treturn ' + VC_ERR + '\n'
+L_GUARD = '\t\tif !cert.IsCA && !isSelfSigned(cert) {\n\t\t\treturn ' + VC_ERR + '\n\t\t}\n'
+L_ACCEPT = '\t\tif !acceptable(cert) {\n\t\t\treturn ' + VC_ERR + '\n\t\t}\n'
+L_REJECT = '\t\tif rejected(cert) {\n\t\t\treturn ' + VC_ERR + '\n\t\t}\n'
+L_SWITCH = '\t\tswitch {\n\t\tcase cert.IsCA:\n\t\tcase isSelfSigned(cert):\n\t\tdefault:\n\t\t\treturn ' + VC_ERR + '\n\t\t}\n'
+F_ACCEPT = 'func acceptable(c *x509.Certificate) bool {\n\treturn c.IsCA || isSelfSigned(c)\n}\n\n'
+F_ACCEPT_IF = 'func acceptable(c *x509.Certificate) bool {\n\tif c.IsCA {\n\t\treturn true\n\t}\n\treturn c.' + CHECKSIG % ('c', 'c', 'c') + ' == nil\n}\n'
+F_REJECT = 'func rejected(c *x509.Certificate) bool {\n\treturn !c.IsCA && c.' + CHECKSIG % ('c', 'c', 'c') + ' != nil\n}\n'
+F_ERRPRED = 'func checkSelfSigned(c *x509.Certificate) error {\n\tif !isSelfSigned(c) {\n\t\treturn errors.New("not self-signed")\n\t}\n\treturn nil\n}\n\n'
+L_ERRPRED = '\t\tif cert.IsCA {\n\t\t\tcontinue\n\t\t}\n\t\tif err := checkSelfSigned(cert); err != nil {\n\t\t\treturn ' + VC_ERR + '\n\t\t}\n'
+def v(name, expect, d, edits=None):
+    d = dict(d, name=name, expect=expect)
+    if edits:
+        d['edits'] = edits
+    return d
+LSTAT_IF = '\tif err != nil {\n\t\tif os.IsNotExist(err) {\n\t\t\treturn nil, TrustStoreError{InnerError: err, Msg: fmt.Sprintf("the trust store %q of type %q does not exist", namedStore, storeType)}\n\t\t}\n\t\treturn nil, TrustStoreError{InnerError: err, Msg: fmt.Sprintf("failed to access the trust store %q of type %q", namedStore, storeType)}\n\t}\n\tmode := fileInfo.Mode()\n'
+def lstat_switch(first='err == nil'):
+    return ('\tswitch {\n\tcase ' + first + ':\n\tcase os.IsNotExist(err):\n\t\treturn nil, TrustStoreError{InnerError: err, Msg: fmt.Sprintf("the trust store %q of type %q does not exist", namedStore, storeType)}\n'
+            '\tdefault:\n\t\treturn nil, TrustStoreError{InnerError: err, Msg: fmt.Sprintf("failed to access the trust store %q of type %q", namedStore, storeType)}\n\t}\n\tmode := fileInfo.Mode()\n')
+MODE_OLD = '\tif !mode.IsDir() || mode&fs.ModeSymlink != 0 {\n'
+TSA_IF_OLD = '\t\tif storeType == TypeTSA {\n'
+LOOP_HEAD = '\tvar certificates []*x509.Certificate\n\tfor _, file := range files {\n'
+VARIANTS += [
+ v('benign-self-signed-predicate-continue', 'silent', vc(L_CONTINUE, self_signed())),
+ v('benign-self-signed-predicate-guard', 'silent', vc(L_GUARD, self_signed())),
+ v('benign-self-signed-predicate-switch', 'silent', vc(L_SWITCH, self_signed())),
+ v('benign-acceptable-predicate', 'silent', vc(L_ACCEPT, F_ACCEPT + self_signed())),
+ v('benign-acceptable-predicate-if', 'silent', vc(L_ACCEPT, F_ACCEPT_IF)),
+ v('benign-rejected-predicate', 'silent', vc(L_REJECT, F_REJECT)),
+ v('benign-self-signed-error-over-predicate', 'silent', vc(L_ERRPRED, F_ERRPRED + self_signed())),
+ # the new shapes with the property broken
+ v('self-signed-predicate-ignores-result', 'flagged(entry/ca-or-self-signed)', vc(L_CONTINUE, 'func isSelfSigned(c *x509.Certificate) bool {\n\t_ = c.' + CHECKSIG % ('c', 'c', 'c') + '\n\treturn true\n}\n')),
+ v('self-signed-predicate-inverted', 'flagged(entry/ca-or-self-signed)', vc(L_CONTINUE, self_signed(cmp='!= nil'))),
+ v('self-signed-predicate-on-first-file-cert', 'flagged(entry/ca-or-self-signed)', vc(L_CONTINUE.replace('isSelfSigned(cert)', 'isSelfSigned(certs[len(certs)-1])'), self_signed())),
+ v('self-signed-predicate-short-circuited', 'flagged(entry/ca-or-self-signed)', vc(L_CONTINUE, 'func isSelfSigned(c *x509.Certificate) bool {\n\treturn len(c.Signature) > 0 || c.' + CHECKSIG % ('c', 'c', 'c') + ' == nil\n}\n')),
+ v('self-signed-predicate-guard-wrong-polarity', 'flagged(entry/ca-or-self-signed)', vc(L_GUARD.replace('!isSelfSigned(cert)', 'isSelfSigned(cert)'), self_signed())),
+ v('acceptable-predicate-any-key-usage', 'flagged(entry/ca-or-self-signed)', vc(L_ACCEPT, F_ACCEPT.replace('c.IsCA ||', 'c.IsCA || c.KeyUsage != 0 ||') + self_signed())),
+ v('acceptable-predicate-asked-about-other-cert', 'flagged(entry/ca-or-self-signed)', vc(L_ACCEPT.replace('acceptable(cert)', 'acceptable(&x509.Certificate{IsCA: true})'), F_ACCEPT + self_signed())),
+ v('rejected-predicate-or', 'flagged(entry/ca-or-self-signed)', vc(L_REJECT, F_REJECT.replace('!c.IsCA && c.', 'c.IsCA && c.'))),
+ v('self-signed-error-over-predicate-swallowed', 'flagged(entry/ca-or-self-signed)', vc(L_ERRPRED, F_ERRPRED.replace('return errors.New("not self-signed")', 'return nil') + self_signed())),
+ # the control-flow rewrites of the same refactoring
+ dict(name='benign-lstat-switch-demorgan-hoisted-tsa', file=T, expect='silent', find=LSTAT_IF, replace=lstat_switch(),
+      edits=[(T, MODE_OLD, '\tif !(mode.IsDir() && mode&fs.ModeSymlink == 0) {\n'), (T, TSA_IF_OLD, '\t\tif rootsOnly {\n'),
+             (T, LOOP_HEAD, '\trootsOnly := storeType == TypeTSA\n\tcertificates := make([]*x509.Certificate, 0, len(files))\n\tfor _, file := range files {\n')]),
+ dict(name='lstat-switch-first-case-always', file=T, expect='flagged(gate/lstat)', find=LSTAT_IF, replace=lstat_switch(first='err == nil || fileInfo != nil')),
+ dict(name='demorgan-symlink-dropped', file=T, expect='flagged(gate/not-symlink)', find=MODE_OLD, replace='\tif !(mode.IsDir() || mode&fs.ModeSymlink == 0) {\n'),
+ dict(name='hoisted-tsa-test-on-other-type', file=T, expect='flagged(entry/tsa-roots)', find=TSA_IF_OLD, replace='\t\tif rootsOnly {\n',
+      edits=[(T, LOOP_HEAD, '\trootsOnly := storeType == TypeSigningAuthority\n' + LOOP_HEAD)]),
+]
